@@ -1236,8 +1236,10 @@ type Resolver struct {
 func NewResolver() *Resolver { return &Resolver{Env: map[*ssa.Parameter]ssa.Value{}} }
 
 // Bind binds the parameters of the callee of c to the (resolved) arguments.
-func (r *Resolver) Bind(c ssa.CallInstruction) {
-	cal := c.Common().StaticCallee()
+func (r *Resolver) Bind(c ssa.CallInstruction) { r.BindTo(c, c.Common().StaticCallee()) }
+
+// BindTo binds the parameters of cal, one of the functions c may call.
+func (r *Resolver) BindTo(c ssa.CallInstruction, cal *ssa.Function) {
 	if cal == nil {
 		return
 	}
